@@ -6,6 +6,7 @@ CONSTANTS
   Quals = {"good","badsig","foreign"}
   MaxSub = 3
   MaxBlocks = 1
+  MaxEvents = 0
   MaxLen = 0
   Defects = {"sig_not_checked"}
 INVARIANT MInv_Once
